@@ -326,6 +326,8 @@ class Sync(Shape):
         if self.kind == "queue":
             st["items"] = [sh.make(ctx, "%s.q[%d]" % (name, i)) if isinstance(sh, Shape) else sh
                            for i, sh in enumerate(st.get("items", []))]
+            if isinstance(st.get("tail"), Shape):      # a MODELLED symbolic sequence of further items
+                st["tail"] = st["tail"].make(ctx, name + ".tail")
             if st.get("extra") is True:       # an unknown number (>= 0) of further items behind those
                 t = z3.Int(name + ".extra")
                 ctx.inputs[name + ".extra"] = t
@@ -398,6 +400,17 @@ class NTuple(Shape):
     def concretize(self, vals, name, made):
         return {"t": "ntuple", "cls": self.cls.__module__ + ":" + self.cls.__qualname__,
                 "fields": {k: sh.concretize(vals, "%s.%s" % (name, k), None) for k, sh in self.fields.items()}}
+
+
+class AnyDict(Shape):
+    """a dict with unknown contents (only written to / probed with known keys by the code under proof)"""
+
+    def make(self, ctx, name):
+        from .seqs import SymDict
+        return SymDict({}, rest=True)
+
+    def concretize(self, vals, name, made):
+        return {"t": "dict", "items": []}
 
 
 class DictOf2(Shape):
